@@ -102,7 +102,7 @@ emit('Host_revisions_thorough.cfg','''C08 thorough (Leg M): as quick with up to 
 emit('Host_revisions_thorough3.cfg','''C08 thorough (Leg M): THREE renter sessions interleaved, up to 2 commits, one corruption class per field''',
      dict(REV, Sessions='{1, 2, 3}', MaxNum=2, PF='{"ok", "expired"}', CF='{"ok", "stale"}', SF='{"ok", "other"}', RenewKinds='{"renew"}', Amts='{1}'), prop=REV_PROP)
 EREV=dict(Family='"revisions"', Sessions='{1, 2}', Accounts='{"a1"}', Pools='{"p1"}', InitSizes='{2}', NSectors=2, Edges='TRUE', MaxNum=99,
-          MaxExchanges=2, TipChoices='{0, 1, 2, 3, 147}', Allowance=600000, Collateral=1100000, Amts='{1, 600001}',
+          MaxExchanges=2, TipChoices='{0, 1, 2, 3}', Allowance=600000, Collateral=1100000, Amts='{1, 600001}',
           PF='{"ok", "expired", "foreign", "tampered"}', CF='{"ok", "badsig", "stale"}', SF='{"ok", "bad", "other", "replay"}',
           RenewKinds='{"renew", "refresh", "refreshpartial"}')
 emit('Host_revisions_edges.cfg','''C08 Leg R export: a contract of 2 sectors with real unit prices (allowance 600000 units: two appended sectors
